@@ -17,10 +17,13 @@ func checkC15(c *Ctx) {
 	v := c.esVerify()
 	n := 0
 	for _, f := range v.list {
-		if !strings.Contains(f.fn, "SyntaxQuote") {
+		// the syntax-quote emitters, and the call generator, where a macro's expansion is compiled in place of the call:
+		// it must be compiled with the caller's tail flag and scope count, as the hand-written form would be
+		expansionSite := f.fn == "Generator.GenerateCallBySymbol" && (f.rule == "ES-S" || f.rule == "ES-T" || f.rule == "ES-MODEL")
+		if !strings.Contains(f.fn, "SyntaxQuote") && !expansionSite {
 			continue
 		}
-		if f.rule != "ES-M" && f.rule != "ES-T" && f.rule != "ES-D" && f.rule != "ES-MODEL" {
+		if !expansionSite && f.rule != "ES-M" && f.rule != "ES-T" && f.rule != "ES-D" && f.rule != "ES-MODEL" {
 			continue
 		}
 		n++
